@@ -157,6 +157,49 @@ theorem second_action_reads_own_data (j : Job) (driver : Cache) (hd : DriverOk j
     rw [(cacheSpec_hit next keep j r1.2 [] p.1 p.2 _ (hown p hp)).2]
   exact ⟨h1, fun k => by rw [h2]⟩
 
+
+/-! ### every private task program, not only the pipeline modelled above -/
+
+-- OBLIGATION: PysparklingVerif.C03.any_private_programs_commute
+/-- for ARBITRARY task programs over arbitrary private state: under any schedule task `i` is exactly where its own
+program is after the number of steps the schedule gave it -/
+theorem any_private_programs_commute {σ : Type} (step : Nat → σ → σ) (sched : List Nat) (s : List σ) :
+    (runAny step sched s).length = s.length ∧
+    ∀ i, (runAny step sched s)[i]? = (s[i]?).map (iter (step i) (sched.count i)) := by
+  induction sched generalizing s with
+  | nil => exact ⟨rfl, fun i => by
+      show s[i]? = _
+      cases s[i]? <;> rfl⟩
+  | cons a rest ih =>
+    obtain ⟨r1, r2⟩ := ih (stepAt step a s)
+    rw [runAny_cons]
+    refine ⟨r1.trans (stepAt_length step a s), fun i => ?_⟩
+    rw [r2 i, stepAt_getElem?, List.count_cons]
+    by_cases hi : a = i
+    · subst hi
+      simp only [if_true, beq_self_eq_true]
+      exact iter_succ_map _ _ _
+    · have hb : (a == i) = false := by simpa using hi
+      simp [hi, hb]
+
+-- OBLIGATION: PysparklingVerif.C03.any_complete_schedule_is_sequential
+/-- hence every schedule that lets every task finish — all interleavings, all start orders, any number of
+pre-emptions — ends in the same state as running the tasks one after the other -/
+theorem any_complete_schedule_is_sequential {σ : Type} (step : Nat → σ → σ) (n : Nat → Nat) (sched : List Nat) (s : List σ)
+    (hq : Quiescent step n s) (hc : ∀ i, i < s.length → n i ≤ sched.count i) :
+    runAny step sched s = runEachAlone step n s := by
+  apply List.ext_getElem?
+  intro i
+  rw [(any_private_programs_commute step sched s).2 i, runEachAlone_getElem?]
+  cases ht : s[i]? with
+  | none => rfl
+  | some t =>
+    have hlt : i < s.length := (List.getElem?_eq_some_iff.mp ht).1
+    have hcnt := hc i hlt
+    obtain ⟨extra, he⟩ : ∃ extra, sched.count i = n i + extra := ⟨sched.count i - n i, by omega⟩
+    simp only [Option.map_some, Option.some.injEq, he]
+    exact iter_quiescent (step i) (n i) extra t (hq i t ht)
+
 /-! ### the original code is NOT schedule independent (the theorem above is not vacuous) -/
 
 def demoJob : Job := ⟨7, 100, [[0, 1], [2, 3]]⟩
